@@ -162,10 +162,20 @@ MQuiet(r) ==
     /\ \A o \in live : HC(o) >= 1
     /\ UNCHANGED mvars
 
-MStep(r) == MInv(r) \/ MLin(r) \/ MDtor(r) \/ MResp(r) \/ MClone(r) \/ MRead(r) \/ MQuiet(r)
+\* one round of `h_poolmt mt-burst`: n threads inserted their first object (of one so far unseen layout) into a fresh pool at
+\* the same instant and hold the handles: every object is alive and intact, none has been destroyed, len = n; after the
+\* drops every object was destroyed exactly once and the pool is empty
+MBurst(r) ==
+    /\ r.ev = "burst"
+    /\ r.len = r.n /\ r.intact = r.n /\ r.early = 0
+    /\ r.after = 0 /\ r.dtors = r.n
+    /\ UNCHANGED mvars
+
+MStep(r) == MInv(r) \/ MLin(r) \/ MDtor(r) \/ MResp(r) \/ MClone(r) \/ MRead(r) \/ MQuiet(r) \/ MBurst(r)
 
 MWhy(r) ==
     CASE r.ev = "oppanic" -> "operation-panicked"
+      [] r.ev = "burst" -> "concurrent-first-inserts-lost-or-destroyed-an-object"
       [] r.ev = "dtor" /\ r.obj \in dead -> "destroyed-twice"
       [] r.ev = "dtor" /\ HC(r.obj) > 0 -> "destroyed-while-handle-alive"
       [] r.ev = "dtor" -> "destructor-outside-drop"
